@@ -19,7 +19,8 @@ import traceback
 from typing import Any
 
 VERIF = os.path.dirname(os.path.dirname(os.path.abspath(__file__)))
-SCRATCH = os.environ.get("SVSIM_SCRATCH", "/dev/shm/semverif")
+from . import scratch_root as _scratch_root
+SCRATCH = _scratch_root()
 DEFAULT_SEED = 20261004
 NWORKERS = int(os.environ.get("SVSIM_WORKERS", "16"))
 
